@@ -32,6 +32,7 @@ Facts(c) ==
     [] c = "BLANK"  -> F(FALSE, FALSE, TRUE,  "n", "n", "na", "n", "n", "n", TRUE)      \* only spaces
     [] c = "TEXT"   -> F(FALSE, FALSE, FALSE, "n", "n", "na", "n", "n", "n", TRUE)      \* words, no digits or colons
     [] c = "UNICODE" -> F(FALSE, FALSE, FALSE, "n", "n", "na", "n", "n", "n", TRUE)     \* non-ASCII letters
+    [] c = "SENTINEL" -> F(FALSE, FALSE, FALSE, "n", "n", "na", "n", "n", "n", TRUE)    \* words that spell a programming language's "nothing" or a truth value: None, null, N/A, true ... - text like any other
     [] c = "METATEXT" -> F(FALSE, FALSE, FALSE, "n", "n", "na", "n", "n", "n", TRUE)    \* text made of what message templates treat as markup: braces, percent signs, backslashes
     [] c = "SURROGATE" -> F(FALSE, FALSE, FALSE, "n", "n", "na", "n", "n", "n", FALSE)  \* lone surrogate: not encodable
     [] c = "INT4"   -> F(FALSE, FALSE, FALSE, "y", "y", "gt180", "u", "y", "n", TRUE)   \* 1000..9999: also a year
@@ -59,7 +60,7 @@ Facts(c) ==
     [] c = "LENIENT_DATE"  -> F(FALSE, FALSE, FALSE, "u", "u", "na", "u", "u", "n", TRUE)  \* 2020-1-5
 IntClass(b) == F(FALSE, FALSE, FALSE, "y", "y", b, "u", "u", "n", TRUE)     \* canonical integers that are not 4-digit years
 DecClass(b) == F(FALSE, FALSE, FALSE, "n", "y", b, "u", "n", "n", TRUE)     \* canonical decimals ("12.5" is an ISO fractional hour for Python)
-PlainClasses == {"NONE", "EMPTY", "BLANK", "TEXT", "UNICODE", "METATEXT", "SURROGATE", "INT4", "SCI", "NAN", "PINF", "NINF", "OVERFLOW",
+PlainClasses == {"NONE", "EMPTY", "BLANK", "TEXT", "UNICODE", "METATEXT", "SENTINEL", "SURROGATE", "INT4", "SCI", "NAN", "PINF", "NINF", "OVERFLOW",
                  "UNDERFLOW", "DIGITLIKE", "TIME", "TIME_ZONED", "BADTIME", "DATE", "BADDATE", "URI", "URI_FULL", "URI_BADSCHEME", "URI_NOSCHEME", "URI_NOHOST", "URI_EXOTIC",
                  "LENIENT_INT", "LENIENT_FLOAT", "LENIENT_TIME", "LENIENT_DATE"}
 (* a class is a record [cls, bucket]; bucket "" for plain classes *)
